@@ -3,20 +3,20 @@ CHECK = {
     "id": "C05",
     "packages": ["./actor"],
     "harness": ["actor/zz_verif_c05.go"],
-    "replace": [{"file": "actor/ready_queue.go", "old": "const localQueueCap = 256", "new": "const localQueueCap = 2"},
+    "replace": [{"file": "actor/ready_queue.go", "old": "const localQueueCap = 256", "new": "const localQueueCap = 4"},
                 {"file": "actor/ready_queue.go", "old": "const globalQueueInitialCap = 64", "new": "const globalQueueInitialCap = 1"}],
     "entries": [
         {"fn": P + "vC05_pushTake", "replay": "model-only", "cover_optional": ("parked",), "opts_quick": {"rounds": 2},
          "may_be_unreachable": ("no worker stays parked while work is queued",)},
         {"fn": P + "vC05_park", "replay": "model-only"},
         {"fn": P + "vC05_close", "replay": "model-only", "opts_quick": {"rounds": 2}},
+        {"fn": P + "vC05_spill", "replay": "model-only", "cover_optional": ("spilled-item-taken",), "opts": {"loop_bounds": {P + "vC05_spill$1": 6}}},
         {"fn": P + "vC05_steal", "replay": "model-only", "tiers": ("thorough",)},
-        {"fn": P + "vC05_ringStep", "opts": {"feasibility": True, "unwind": 6}, "cover_optional": ("stole-two",),
-         "may_be_unreachable": ("stealHalf moves the older half in order",)},
+        {"fn": P + "vC05_ringStep", "opts": {"feasibility": True, "unwind": 6}, "unused": 0},
     ],
     "opts": {"rounds": 3, "unwind": 3, "unwind_mode": "assume", "feasibility": False,
              "loop_bounds": {P + "vC05_steal$1": 5, P + "vC05_steal": 5, P + "vC05_worker": 4}},
     "timeout_ms": {"quick": 400000, "thorough": 1800000},
     "explanation": "readyQueue.push/pushLocal/take (popFront, popGlobal, trySteal/stealHalf, parkAndTake with sync.Cond)/close and globalQueue.push/pop/grow under solver-chosen interleavings with shrunk rings; plus one sequential inductive step of the local ring operations from an arbitrary valid ring state.",
-    "bounds": {"threads": "1 pusher + 2 workers", "rounds": "2-3 (quick) / 3 (thorough)", "localQueueCap": 2, "globalQueueInitialCap": 1, "retry loops": "<= 3 iterations (assumed)"},
+    "bounds": {"threads": "1 pusher + 2 workers", "rounds": "2-3 (quick) / 3 (thorough)", "localQueueCap": 4, "globalQueueInitialCap": 1, "retry loops": "<= 3 iterations (assumed)"},
 }
